@@ -498,7 +498,7 @@ func c16Constructors(c *Ctx) {
 	}
 	var written int64
 	battery := func(w *gldap.ResponseWriter, req *gldap.Request) {
-		defer close(done)
+		defer func(d chan struct{}) { close(d) }(done)
 		for _, ct := range ctors {
 			for mask := 0; mask < 1<<len(respOpts); mask++ {
 				var idx []int
@@ -553,42 +553,73 @@ func c16Constructors(c *Ctx) {
 		fin.SetDiagnosticMessage("battery-done")
 		_ = w.Write(fin)
 	}
-	srv, err := startSrv(SrvCfg{}, func(m *gldap.Mux) { m.Bind(battery) })
-	if err != nil {
-		c.Inconclusive("cannot start server: " + err.Error())
-		return
+	// the constructors are methods of *Request: run the battery for a request of every operation kind
+	kinds := []string{"bind", "search", "modify", "add", "delete", "extended"}
+	if c.Quick() {
+		kinds = []string{"bind", "search", "extended", "modify"}
 	}
-	cl, err := dialRaw(srv.Addr, nil)
-	if err != nil {
-		c.Inconclusive("dial: " + err.Error())
-		return
-	}
-	cl.Send(sber.Message(77, sber.BindRequest(3, []byte("cn=x"), []byte("p")), nil).Encode())
-	// drain frames; every one must be a well-formed LDAPMessage with our message ID
-	frames := 0
-	for {
-		m, err := cl.ReadMsg(patience)
+	for _, kind := range kinds {
+		done = make(chan struct{})
+		srv, err := startSrv(SrvCfg{}, func(m *gldap.Mux) {
+			m.Bind(battery)
+			m.Search(battery)
+			m.Modify(battery)
+			m.Add(battery)
+			m.Delete(battery)
+			m.ExtendedOperation(battery, "1.2.3.4")
+		})
 		if err != nil {
-			c.Inconclusive("reading constructor battery output: " + err.Error())
-			break
+			c.Inconclusive("cannot start server: " + err.Error())
+			return
 		}
-		frames++
-		if m.ID != 77 {
-			c.Violate("response with wrong message ID", fmt.Sprintf("got %d want 77", m.ID), nil)
+		cl, err := dialRaw(srv.Addr, nil)
+		if err != nil {
+			c.Inconclusive("dial: " + err.Error())
+			return
 		}
-		if res, err := sber.AsResult(m.Op); err == nil && bytes.Equal(res.Diag, []byte("battery-done")) {
-			break
+		var op *sber.Node
+		switch kind {
+		case "bind":
+			op = sber.BindRequest(3, []byte("cn=x"), []byte("p"))
+		case "search":
+			op = sber.Search{Base: []byte("dc=x"), Scope: 2, Filter: sber.PresentFilter("cn"), Attrs: [][]byte{}}.Node()
+		case "modify":
+			op = sber.ModifyRequest([]byte("cn=x"), nil)
+		case "add":
+			op = sber.AddRequest([]byte("cn=x"), nil)
+		case "delete":
+			op = sber.DelRequest([]byte("cn=x"))
+		case "extended":
+			op = sber.ExtendedRequest([]byte("1.2.3.4"), nil, false)
 		}
+		cl.Send(sber.Message(77, op, nil).Encode())
+		// drain frames; every one must be a well-formed LDAPMessage with our message ID
+		frames := 0
+		for {
+			m, err := cl.ReadMsg(patience)
+			if err != nil {
+				c.Inconclusive("reading constructor battery output (" + kind + "): " + err.Error())
+				break
+			}
+			frames++
+			if m.ID != 77 {
+				c.Violate("response with wrong message ID", fmt.Sprintf("got %d want 77", m.ID), nil)
+			}
+			if res, err := sber.AsResult(m.Op); err == nil && bytes.Equal(res.Diag, []byte("battery-done")) {
+				break
+			}
+		}
+		select {
+		case <-done:
+		case <-time.After(patience):
+			c.Inconclusive("constructor battery did not finish")
+		}
+		c.Count("response_frames_parsed", int64(frames))
+		c.Distinct("calls", "battery-on-"+kind+"-request")
+		cl.Close()
+		srv.StopWithin(patience)
 	}
-	select {
-	case <-done:
-	case <-time.After(patience):
-		c.Inconclusive("constructor battery did not finish")
-	}
-	c.Count("response_frames_parsed", int64(frames))
-	c.Sample(map[string]any{"fn": "NewModifyResponse", "options": []string{}, "then": "ResponseWriter.Write"})
-	cl.Close()
-	srv.StopWithin(patience)
+	c.Sample(map[string]any{"fn": "NewModifyResponse", "options": []string{}, "then": "ResponseWriter.Write", "request_kinds": kinds})
 }
 
 func permutations(xs []int) [][]int {
